@@ -104,11 +104,17 @@ func (v *objectValidator) feedObjectValueBegin() ([]validator, bool) {
 		}
 
 		// child node not found on schema object
-		if key, ok := v.validateTypeRules(objectNode, v.lastFoundKeyLex); ok {
+		// Several key shortcuts may admit the key: the value has to fit the
+		// entry of one of them, like the alternatives of the "or" rule.
+		var list []validator
+		for _, key := range v.validateTypeRules(objectNode, v.lastFoundKeyLex) {
 			if child, ok := objectNode.Child(key, true); ok {
 				delete(v.requiredKeys, key)
-				return NodeValidatorList(child, v.rootSchema, v), false
+				list = append(list, NodeValidatorList(child, v.rootSchema, v)...)
 			}
+		}
+		if len(list) != 0 {
+			return list, false
 		}
 	}
 	if c := v.node_.Constraint(constraint.AdditionalPropertiesConstraintType); c != nil {
@@ -140,8 +146,9 @@ func (v objectValidator) requiredKeysString() string {
 // shortcut admits the key when its type accepts the key as the JSON string it
 // is: the key is given to the validators of the type, so every form a string
 // type can take (rules, formats, references and unions) is decided by the same
-// code as for a value.
-func (v objectValidator) validateTypeRules(objectNode *schema.ObjectNode, keyLex lexeme.LexEvent) (string, bool) {
+// code as for a value. All the shortcuts which admit the key are returned.
+func (v objectValidator) validateTypeRules(objectNode *schema.ObjectNode, keyLex lexeme.LexEvent) []string {
+	var keys []string
 	for _, k := range objectNode.Keys().Data {
 		if !k.IsShortcut {
 			continue
@@ -163,16 +170,16 @@ func (v objectValidator) validateTypeRules(objectNode *schema.ObjectNode, keyLex
 		if node.ConstraintMap().Len() == 0 {
 			// A type that is a bare example stands for that very key.
 			if bytes.Equal(node.Value().Unquote(), keyLex.Value().Unquote()) {
-				return key, true
+				keys = append(keys, key)
 			}
 			continue
 		}
 
 		if v.typeAcceptsKey(node, keyLex) {
-			return key, true
+			keys = append(keys, key)
 		}
 	}
-	return "", false
+	return keys
 }
 
 func (v objectValidator) typeAcceptsKey(node schema.Node, keyLex lexeme.LexEvent) (ok bool) {
